@@ -91,9 +91,8 @@ def values(rng, signed, n):
     return out
 
 
-def run_case(cfg, cmd, v):
+def make_builder(cfg):
     from gscrib import GCodeBuilder
-    name, letter, signed, fn = cmd
     g = GCodeBuilder(decimal_places=cfg["dp"], comment_symbols=cfg["style"], line_endings=EOLS[cfg["eol"]],
                      x_axis=cfg["labels"][0], y_axis=cfg["labels"][1], z_axis=cfg["labels"][2])
     try:
@@ -103,6 +102,14 @@ def run_case(cfg, cmd, v):
         pass
     rw = RecWriter()
     g.add_writer(rw.make())
+    return g, rw
+
+
+def run_case(cfg, cmd, v, live=None):
+    """One call with one number under test; `live` = (builder, writer) reuses a builder whose formatter was reconfigured."""
+    name, letter, signed, fn = cmd
+    g, rw = live or make_builder(cfg)
+    rw.take()
     res = "ok"
     try:
         fn(g, v)
@@ -113,7 +120,7 @@ def run_case(cfg, cmd, v):
     lab = dict(zip("XYZ", cfg["labels"])).get(letter, letter)
     zero = {"neg": False, "ip": [0], "fp": []}
     return {"cmd": name, "letters": list(lab.encode()), "x": zero if nonfinite else exact_of(v), "ulp": zero if nonfinite else ulp_of(v),
-            "nonfinite": nonfinite, "out": list(out), "res": res, "repr": repr(v)}
+            "nonfinite": nonfinite, "out": list(out), "res": res, "repr": repr(v), "dp": cfg["dp"]}
 
 
 def meta_of(cfg):
@@ -175,6 +182,25 @@ class P(flow.Plan):
                         ev.append(run_case(cfg, cmd, v))
                 traces.append({"meta": meta_of(cfg), "ev": ev})
                 inputs.append({"cfg": cfg, "cases": len(ev)})
+        # the precision is reconfigured on a living builder (g.format.set_decimal_places) and the same values are written
+        # again (added after seed C08c: a cache of formatted numbers that survived the change)
+        for r in range(6 if tier == "thorough" else 2):
+            rng = random.Random(sd * 53 + r)
+            cfg = {"dp": 3, "style": ";", "eol": "\n", "labels": ["X", "Y", "Z"]}
+            live = make_builder(cfg)
+            vals = [1.23456, 0.5, 2.675, 1234.56789, 0.000049, 99.9995, 7, rng.uniform(0, 100), rng.uniform(0, 1)]
+            cmds = [CMDS[0], CMDS[4], CMDS[8], CMDS[12], next(c for c in CMDS if c[0] == "set_fan_speed")]
+            ev = []
+            for dp in rng.sample([0, 1, 2, 4, 5, 6], 4) + [1, 5]:
+                live[0].format.set_decimal_places(dp)
+                c2 = dict(cfg, dp=dp)
+                for cmd in cmds:
+                    for v in vals:
+                        ev.append(run_case(c2, cmd, v, live))
+            m = meta_of(cfg)
+            m["reconfigured"] = True
+            traces.append({"meta": m, "ev": ev})
+            inputs.append({"cfg": cfg, "cases": len(ev), "reconfigured": True})
         return traces, inputs
 
     def replay(self, payload):
